@@ -34,10 +34,10 @@ def request (nHosts : Nat) (cmd : Bytes) (args : List Bytes) : Out × BitVec 16 
       else (.fwd idx.toNat (cmd :: natDigits nc.toNat :: rest), idx)
 
 /-- the reply hook registered by `Convert`: rewrite the node's next cursor.
-`none` = the Go code panics (index out of range on an empty array). -/
+`none` would be a panic of the Go code; an empty array is left alone (repaired, F-11c). -/
 def reply (idx : BitVec 16) (r : Resp) : Option Resp :=
   match r with
-  | .arr (some []) => none
+  | .arr (some []) => some r
   | .arr (some (first :: more)) =>
     let text : Bytes := match first with
       | .bulk (some t) => t
